@@ -219,6 +219,13 @@ def check_sums(F, S, tss, classes, s, roles, inv, post_expect, out_expect, rid, 
     if fails:
         S.bad(rid, "window-functional", s, "%s: %s" % (s, fails[0]), where, binding=b, all_failures=fails[:6])
         return None
+    # base case of the induction: the empty window has every functional equal to 0, so the constructor must start the accumulators there
+    c_ = fieldclass.ctor(F, s)
+    for r_ in roles:
+        init = c_["fields"].get(b[r_]) if c_ and c_["ok"] is not None else None
+        if init != cf(0.0):
+            S.bad(rid, "accumulator-init", "%s.%s" % (s, b[r_]), "%s::new starts `%s` at %s; the window functional of the empty window is 0" % (s, b[r_], show(init)[:40]), where)
+            return None
     S.ok(rid, "%s: %s" % (s, what), binding=b, cases=["first call", "warm-up", "steady state"])
     return u, b
 
